@@ -35,6 +35,14 @@ func init() {
 			"and one https URL, experiment on/off; observed: exit code, which version's marker ran, cache files (content version, " +
 			"stored checksum, timestamp present) of every URL — compared with Remote.invoke over the same sequence; plus the " +
 			"property monitor (a marker ran ⇒ that version was offered under --yes or an accepted prompt at or before the step). " +
+			"Second stream (op remote.chain, 250 quick / 3000 thorough sequences): CHAINS — per sequence one of the two http URLs is A, " +
+			"the other B; A's served content (number v+10k) includes B by a relative (k=1,2) or absolute (k=3,4) http reference, " +
+			"rarely itself (cycle, 110) or nothing; A's probe task calls B's; per step the server behaves independently for A and for B " +
+			"(serve version / reset / 404 / 500 / GET-500 / foreign content type / stall on HEAD or GET; refuse = listener closed for both), " +
+			"both are read under the ONE --timeout 300ms|10s of the invocation (A stalling uses it up before B's read starts), flags as " +
+			"above, prompts answered per URL through the pty (A's and B's answers vary independently), root or include-of-local-root; " +
+			"most sequences first download and approve both; at most 150 (quick) steps with a stall past the timeout; compared with " +
+			"Chain.invokeChain (exit code, markers of A and of B that ran, cache files of every URL) plus the same trust monitor for both. " +
 			"non-trivial = a step gets past the flag/scheme gate; distinct by model case line"}
 }
 
@@ -55,10 +63,19 @@ type remStep struct {
 	V          int    `json:"v,omitempty"`
 	Answer     string `json:"answer"` // accept | decline | none
 	Text       string `json:"text,omitempty"`
+	// chains (remCase.Chain): the content served for this step's URL is number V+10*Inc and includes
+	// (Inc 1,3: URL 0; Inc 2,4: URL 1; 1,2 by a relative, 3,4 by an absolute reference) the other http URL,
+	// for which the server behaves as Server2/V2 and whose prompt is answered Answer2/Text2
+	Inc     int    `json:"inc,omitempty"`
+	Server2 string `json:"server2,omitempty"`
+	V2      int    `json:"v2,omitempty"`
+	Answer2 string `json:"answer2,omitempty"`
+	Text2   string `json:"text2,omitempty"`
 }
 
 type remCase struct {
 	Steps []remStep `json:"steps"`
+	Chain bool      `json:"chain,omitempty"` // model op remote.chain; prompts answered per URL
 }
 
 const remURLs = 3
@@ -66,8 +83,28 @@ const remStallDelay = 1200 * time.Millisecond
 
 var remPaths = []string{"/aa/Taskfile.yml", "/bb/Taskfile.yml", "/aa/Taskfile.yml"}
 
-func remContent(u, v int) []byte {
-	return []byte(fmt.Sprintf("version: '3'\nsilent: true\ntasks:\n  probe:\n    cmds:\n      - echo u%dv%d >> \"$VERIF_TRACE\"\n", u, v))
+// remContent: content number c = v + 10k of URL u (u = 0 /aa, 1 /bb); k = 0 is the plain Taskfile;
+// k = 1,3 includes URL 0 and k = 2,4 includes URL 1 (1,2: relative reference; 3,4: absolute, needs the port)
+func remContent(u, c, port int) []byte {
+	k := c / 10
+	if k < 1 || k > 4 {
+		return []byte(fmt.Sprintf("version: '3'\nsilent: true\ntasks:\n  probe:\n    cmds:\n      - echo u%dv%d >> \"$VERIF_TRACE\"\n", u, c))
+	}
+	target := (k + 1) % 2 // 1,3 -> 0 ; 2,4 -> 1
+	ref := "../" + strings.TrimPrefix(remPaths[target], "/")
+	if k >= 3 {
+		ref = fmt.Sprintf("http://127.0.0.1:%d%s", port, remPaths[target])
+	}
+	return []byte(fmt.Sprintf("version: '3'\nsilent: true\nincludes:\n  b: %s\ntasks:\n  probe:\n    cmds:\n      - echo u%dv%d >> \"$VERIF_TRACE\"\n      - task: b:probe\n",
+		ref, u, c))
+}
+
+// remIncTarget: the URL that content number c includes (-1: none)
+func remIncTarget(c int) int {
+	if k := c / 10; k >= 1 && k <= 4 {
+		return (k + 1) % 2
+	}
+	return -1
 }
 
 func sha256hex(b []byte) string { return fmt.Sprintf("%x", sha256.Sum256(b)) }
@@ -102,37 +139,92 @@ func (s remStep) norm() remStep {
 	default:
 		s.Answer = "none"
 	}
+	if s.Inc < 0 || s.Inc > 4 {
+		s.Inc = 0
+	}
+	if s.Server2 != "" {
+		if s.V2 < 1 {
+			s.V2 = 1
+		}
+		// the listener is closed for every URL or for none
+		if s.Server == "refuse" {
+			s.Server2 = "refuse"
+		} else if s.Server2 == "refuse" {
+			s.Server2 = "reset"
+		}
+		// there is a terminal for both prompts or for none
+		switch {
+		case s.Answer == "none":
+			s.Answer2, s.Text2 = "none", ""
+		case s.Answer2 == "accept":
+			if s.Text2 == "" {
+				s.Text2 = "y"
+			}
+		default:
+			s.Answer2 = "decline"
+		}
+	}
 	return s
 }
 
-func (s remStep) stalls() bool { return s.Server == "stall" || s.Server == "stallget" }
+func (s remStep) stalls() bool  { return s.Server == "stall" || s.Server == "stallget" }
+func (s remStep) stalls2() bool { return s.Server2 == "stall" || s.Server2 == "stallget" }
+
+// c1: the content number the server offers for the step's own URL
+func (s remStep) c1() int { return s.V + 10*s.Inc }
+
+// cu: index of the http path of a URL (URL 2 is https on path 0)
+func remCu(u int) int {
+	if u == 2 {
+		return 0
+	}
+	return u
+}
+
+func remServerTokens(kind string, v int) (sk, sa int) {
+	switch kind {
+	case "serve":
+		return 0, v
+	case "stall", "stallget":
+		return 2, v
+	case "refuse", "reset":
+		return 1, 0
+	case "404", "500", "ctype":
+		return 1, 1
+	case "get500":
+		return 1, 2
+	}
+	return 1, 0
+}
 
 func remCaseLine(d remCase) string {
 	var sb strings.Builder
-	fmt.Fprintf(&sb, "remote.run %d %d", remURLs, len(d.Steps))
+	op := "remote.run"
+	if d.Chain {
+		op = "remote.chain"
+	}
+	fmt.Fprintf(&sb, "%s %d %d", op, remURLs, len(d.Steps))
+	answers := map[string]int{"accept": 0, "decline": 1, "none": 2}
 	for _, s := range d.Steps {
 		s = s.norm()
-		sk, sa := 0, s.V
-		switch s.Server {
-		case "serve":
-		case "stall", "stallget":
-			sk = 2
-		case "refuse", "reset":
-			sk, sa = 1, 0
-		case "404", "500", "ctype":
-			sk, sa = 1, 1
-		case "get500":
-			sk, sa = 1, 2
-		default:
-			sk, sa = 1, 0
-		}
+		sk, sa := remServerTokens(s.Server, s.c1())
 		if s.URL == 2 { // TLS handshake with a plain-http server (or no server): the fetch fails
 			sk, sa = 1, 0
 		}
-		ans := map[string]int{"accept": 0, "decline": 1, "none": 2}[s.Answer]
 		fmt.Fprintf(&sb, " %d %d %s %s %s %s %s %d %s %s %s %d %d %d", s.Age, s.URL, b2s(s.URL == 2),
 			b2s(s.Yes), b2s(s.Download), b2s(s.Offline), b2s(s.Insecure), s.Expiry, b2s(s.Patient), b2s(s.Clear),
-			b2s(!s.NoExp), sk, sa, ans)
+			b2s(!s.NoExp), sk, sa, answers[s.Answer])
+		if d.Chain {
+			k2, v2, a2 := s.Server2, s.V2, s.Answer2
+			if k2 == "" { // a step without an own description of node 2: the server treats every URL alike
+				k2, v2, a2 = s.Server, s.V, s.Answer
+				if a2 != "none" {
+					a2 = "decline"
+				}
+			}
+			sk2, sa2 := remServerTokens(k2, v2)
+			fmt.Fprintf(&sb, " %d %d %d", sk2, sa2, answers[a2])
+		}
 	}
 	return sb.String()
 }
@@ -157,6 +249,23 @@ func (rs *remServer) handler(w http.ResponseWriter, r *http.Request) {
 			u = i
 		}
 	}
+	// which node of the step is asked for: the step's own URL (content V+10*Inc, behaviour Server), or —
+	// when the step describes a second node — the other http URL (content V2, behaviour Server2)
+	kind, cn := st.Server, st.c1()
+	if st.Server2 != "" {
+		pu := -1
+		for i, p := range remPaths[:2] {
+			if strings.HasPrefix(r.URL.Path, p[:strings.LastIndex(p, "/")+1]) {
+				pu = i
+			}
+		}
+		if pu >= 0 && pu != remCu(st.URL) {
+			kind, cn = st.Server2, st.V2
+		}
+	}
+	rs.mu.Lock()
+	port := rs.port
+	rs.mu.Unlock()
 	serve := func() {
 		if u < 0 {
 			http.NotFound(w, r)
@@ -165,7 +274,7 @@ func (rs *remServer) handler(w http.ResponseWriter, r *http.Request) {
 		w.Header().Set("Content-Type", "text/yaml")
 		w.WriteHeader(200)
 		if r.Method != "HEAD" {
-			w.Write(remContent(u, st.V))
+			w.Write(remContent(u, cn, port))
 		}
 	}
 	wait := func() {
@@ -176,7 +285,7 @@ func (rs *remServer) handler(w http.ResponseWriter, r *http.Request) {
 		case <-t.C:
 		}
 	}
-	switch st.Server {
+	switch kind {
 	case "serve":
 		serve()
 	case "404":
@@ -197,7 +306,7 @@ func (rs *remServer) handler(w http.ResponseWriter, r *http.Request) {
 		w.Header().Set("Content-Type", "application/octet-stream")
 		w.WriteHeader(200)
 		if r.Method != "HEAD" {
-			w.Write(remContent(u, st.V))
+			w.Write(remContent(u, cn, port))
 		}
 	case "stall":
 		wait()
@@ -237,7 +346,9 @@ func (rs *remServer) listen() error {
 	if err != nil {
 		return err
 	}
+	rs.mu.Lock()
 	rs.port = ln.Addr().(*net.TCPAddr).Port
+	rs.mu.Unlock()
 	rs.ln = ln
 	rs.srv = &http.Server{Handler: http.HandlerFunc(rs.handler)}
 	go rs.srv.Serve(ln)
@@ -306,7 +417,38 @@ type errInconclusive struct{ why string }
 
 func (e errInconclusive) Error() string { return e.why }
 
-func (rr *remRun) runCLI(s remStep) (exit int, out string, err error) {
+// promptResponder answers the trust prompts of one invocation as they appear on the pty: each
+// `… Taskfile at "<url>" … Continue? [y/N]: ` gets the text chosen for that URL (an unknown URL: an
+// empty line, i.e. "no")
+type promptResponder struct {
+	master  *os.File
+	texts   map[string]string
+	seen    int // bytes of output already scanned
+	Prompts []string
+}
+
+func (pr *promptResponder) feed(all string) {
+	const mark = "[y/N]: "
+	for {
+		i := strings.Index(all[pr.seen:], mark)
+		if i < 0 {
+			return
+		}
+		seg := all[:pr.seen+i]
+		pr.seen += i + len(mark)
+		url := ""
+		if j := strings.LastIndex(seg, "Taskfile at \""); j >= 0 {
+			rest := seg[j+len("Taskfile at \""):]
+			if k := strings.Index(rest, "\""); k >= 0 {
+				url = rest[:k]
+			}
+		}
+		pr.Prompts = append(pr.Prompts, url)
+		pr.master.Write([]byte(pr.texts[url] + "\n"))
+	}
+}
+
+func (rr *remRun) runCLI(s remStep, chain bool) (exit int, out string, err error) {
 	bin := os.Getenv("VERIF_TASK_BIN")
 	var args []string
 	if s.Via == "include" {
@@ -361,6 +503,40 @@ func (rr *remRun) runCLI(s remStep) (exit int, out string, err error) {
 		cmd.Stdin = nil
 		cmd.Stdout = w
 		close(done)
+	} else if chain {
+		// chains: up to two prompts, in an order that depends on the cache — answered by URL as they appear
+		m, sl, e := openPty()
+		if e != nil {
+			return 0, "", errInconclusive{"no pty: " + e.Error()}
+		}
+		master = m
+		cmd.Stdin, cmd.Stdout = sl, sl
+		if e := cmd.Start(); e != nil {
+			master.Close()
+			sl.Close()
+			return 0, "", e
+		}
+		sl.Close()
+		pr := &promptResponder{master: m, texts: map[string]string{rr.urls[s.URL]: s.Text}}
+		if s.URL < 2 {
+			pr.texts[rr.urls[1-s.URL]] = s.Text2
+		}
+		go func() {
+			b := make([]byte, 4096)
+			var ptyOut strings.Builder // what came over the pty alone (stderr goes to a pipe)
+			for {
+				n, e := m.Read(b)
+				if n > 0 {
+					w.Write(b[:n])
+					ptyOut.Write(b[:n])
+					pr.feed(ptyOut.String())
+				}
+				if e != nil {
+					break
+				}
+			}
+			close(done)
+		}()
 	} else {
 		m, sl, e := openPty()
 		if e != nil {
@@ -470,8 +646,8 @@ func (rr *remRun) cacheView() string {
 		switch {
 		case strings.HasSuffix(name, ".yaml"):
 			v[u].c = "?"
-			for k := 1; k <= 9; k++ {
-				if bytes.Equal(b, remContent(cu, k)) {
+			for k := 1; k <= 49; k++ {
+				if k%10 != 0 && bytes.Equal(b, remContent(cu, k, rr.srv.port)) {
 					v[u].c = fmt.Sprint(k)
 				}
 			}
@@ -480,8 +656,8 @@ func (rr *remRun) cacheView() string {
 				break
 			}
 			v[u].s = "?"
-			for k := 1; k <= 9; k++ {
-				if string(b) == sha256hex(remContent(cu, k)) {
+			for k := 1; k <= 49; k++ {
+				if k%10 != 0 && string(b) == sha256hex(remContent(cu, k, rr.srv.port)) {
 					v[u].s = fmt.Sprint(k)
 				}
 			}
@@ -548,17 +724,35 @@ func remEvalOnce(d remCase, work string) (impl string, err error) {
 			}
 		}
 		os.Remove(rr.trace)
-		exit, out, e := rr.runCLI(s)
+		exit, out, e := rr.runCLI(s, d.Chain)
 		if e != nil {
 			return "", e
 		}
 		// a timeout although the server was not stalling: the machine was too slow for --timeout 300ms
 		offered := s.Server == "serve" || (s.stalls() && s.Patient)
-		if !(s.stalls() && !s.Patient) && (exit == 108 || strings.Contains(out, "deadline exceeded")) {
+		if !((s.stalls() || s.stalls2()) && !s.Patient) && (exit == 108 || strings.Contains(out, "deadline exceeded")) {
 			return "", errInconclusive{fmt.Sprintf("spurious timeout: step %d", i)}
 		}
 		if offered && s.URL != 2 && (s.Yes || s.Answer == "accept") {
-			approved[[2]int{s.URL, s.V}] = true
+			approved[[2]int{s.URL, s.c1()}] = true
+		}
+		cu := remCu(s.URL)
+		// the same for one node of a step in which the *other* node stalls: a fetch of a serving URL was
+		// begun ("downloading remote file: U") and did not end in "found remote file at U"
+		lost := func(u string) bool {
+			return strings.Contains(out, "downloading remote file: "+u+"\n") && !strings.Contains(out, "found remote file at \""+u+"\"")
+		}
+		if d.Chain && s.URL != 2 {
+			if offered && lost(rr.urls[s.URL]) {
+				return "", errInconclusive{fmt.Sprintf("spurious timeout: step %d node 1", i)}
+			}
+			spent := s.stalls() && !s.Patient
+			if !spent && (s.Server2 == "serve" || (s.stalls2() && s.Patient)) && lost(rr.urls[1-cu]) {
+				return "", errInconclusive{fmt.Sprintf("spurious timeout: step %d node 2", i)}
+			}
+		}
+		if s.Server2 != "" && (s.Server2 == "serve" || (s.stalls2() && s.Patient)) && (s.Yes || s.Answer2 == "accept") {
+			approved[[2]int{1 - cu, s.V2}] = true
 		}
 		var ran []string
 		if b, e := os.ReadFile(rr.trace); e == nil {
@@ -566,13 +760,13 @@ func remEvalOnce(d remCase, work string) (impl string, err error) {
 		}
 		res := ""
 		violation := false
-		cu := s.URL
-		if cu == 2 {
-			cu = 0
-		}
-		for _, m := range ran {
+		for j, m := range ran {
 			var mu, mv int
-			if n, _ := fmt.Sscanf(m, "u%dv%d", &mu, &mv); n != 2 || mu != cu || !approved[[2]int{s.URL, mv}] {
+			n, _ := fmt.Sscanf(m, "u%dv%d", &mu, &mv)
+			switch {
+			case n == 2 && j == 0 && mu == cu && approved[[2]int{s.URL, mv}]:
+			case n == 2 && j == 1 && d.Chain && mu == 1-cu && approved[[2]int{mu, mv}]: // the included Taskfile's probe
+			default:
 				violation = true
 			}
 		}
@@ -583,6 +777,15 @@ func remEvalOnce(d remCase, work string) (impl string, err error) {
 				res = fmt.Sprintf("run:%d", mv)
 			} else {
 				res = "run:?" + ran[0]
+			}
+		case exit == 0 && len(ran) == 2 && d.Chain:
+			var mu, mv, nu, nv int
+			n1, _ := fmt.Sscanf(ran[0], "u%dv%d", &mu, &mv)
+			n2, _ := fmt.Sscanf(ran[1], "u%dv%d", &nu, &nv)
+			if n1 == 2 && n2 == 2 && mu == cu && nu == 1-cu {
+				res = fmt.Sprintf("run:%d+%d", mv, nv)
+			} else {
+				res = "run:?" + strings.Join(ran, "+")
 			}
 		case exit == 0 && len(ran) == 0 && s.Clear:
 			res = "cleared"
@@ -718,6 +921,86 @@ func (c *Ctx) remStep(prev *remStep, pty bool) remStep {
 	return s
 }
 
+func remServerKind(x int) string {
+	switch {
+	case x < 52:
+		return "serve"
+	case x < 63:
+		return "refuse"
+	case x < 68:
+		return "reset"
+	case x < 73:
+		return "404"
+	case x < 76:
+		return "500"
+	case x < 80:
+		return "get500"
+	case x < 83:
+		return "ctype"
+	case x < 94:
+		return "stall"
+	}
+	return "stallget"
+}
+
+// remChainStep: a step of a chain sequence.  `au` is the sequence's URL A (0 or 1): only A is ever served
+// content that includes the other URL B, so B's cached content is always a plain Taskfile (the model reads
+// chains of two).  The step reads A (as root or as the include of a local root) with probability 85%, else B.
+func (c *Ctx) remChainStep(prev *remStep, pty bool, au int, stallBudget *int) remStep {
+	r := c.Rng
+	s := c.remStep(prev, pty)
+	s.URL = au
+	if r.Intn(100) < 15 {
+		s.URL = 1 - au
+	}
+	s.Inc = 0
+	if s.URL == au {
+		switch x := r.Intn(100); {
+		case x < 78: // includes B, by a relative or an absolute reference
+			s.Inc = 1 + (1 - au) + 2*r.Intn(2)
+		case x < 83: // includes itself
+			s.Inc = 1 + au + 2*r.Intn(2)
+		}
+		if prev != nil && prev.URL == au && r.Intn(100) < 60 {
+			s.V, s.Inc = prev.V, prev.Inc
+		}
+	}
+	// server behaviour towards the two URLs: independent, a little more stalling of the step's own URL
+	if r.Intn(100) < 12 {
+		s.Server = "stall"
+	}
+	s.Server2 = remServerKind(r.Intn(100))
+	s.V2 = 1 + r.Intn(3)
+	if prev != nil && prev.Server2 != "" && r.Intn(100) < 60 {
+		s.V2 = prev.V2
+	}
+	if s.stalls() || s.stalls2() {
+		s.Patient = r.Intn(100) < 20
+		if !s.Patient && !s.NoExp {
+			if *stallBudget <= 0 { // bound the wall time: no more stalls past the timeout
+				if s.stalls() {
+					s.Server = "serve"
+				}
+				if s.stalls2() {
+					s.Server2 = "serve"
+				}
+			} else {
+				*stallBudget--
+			}
+		}
+	}
+	if s.Answer != "none" {
+		if r.Intn(100) < 55 {
+			s.Answer2 = "accept"
+			s.Text2 = []string{"y", "yes", "Y", "YES", " y "}[r.Intn(5)]
+		} else {
+			s.Answer2 = "decline"
+			s.Text2 = []string{"n", "", "no", "x", "yes please", "N"}[r.Intn(6)]
+		}
+	}
+	return s.norm()
+}
+
 func runRemote(c *Ctx) {
 	if c.Replay(func(raw []byte) (string, string) {
 		var d remCase
@@ -744,6 +1027,35 @@ func runRemote(c *Ctx) {
 				if s.URL == 2 {
 					s.URL = 0
 				}
+			}
+			d.Steps = append(d.Steps, s)
+			prev = &d.Steps[len(d.Steps)-1]
+		}
+		cases = append(cases, d)
+	}
+	// chains: A includes B, both read under one --timeout
+	nChain := c.Pick(250, 3000)
+	stallBudget := c.Pick(150, 1<<30)
+	for i := 0; i < nChain; i++ {
+		k := 2 + c.Rng.Intn(maxLen-1)
+		d := remCase{Chain: true}
+		au := 0
+		if c.Rng.Intn(100) < 20 {
+			au = 1
+		}
+		var prev *remStep
+		for j := 0; j < k; j++ {
+			s := c.remChainStep(prev, pty, au, &stallBudget)
+			if j == 0 && c.Rng.Intn(100) < 70 { // most histories start by getting approved copies of A and of B
+				wasStall := (s.stalls() || s.stalls2()) && !s.Patient && !s.NoExp
+				s.URL, s.Server, s.Server2, s.Yes, s.Insecure, s.NoExp, s.Offline, s.Clear, s.Patient = au, "serve", "serve", true, true, false, false, false, false
+				if wasStall {
+					stallBudget++
+				}
+				if remIncTarget(s.c1()) != 1-au {
+					s.Inc = 1 + (1 - au) + 2*c.Rng.Intn(2)
+				}
+				s = s.norm()
 			}
 			d.Steps = append(d.Steps, s)
 			prev = &d.Steps[len(d.Steps)-1]
@@ -777,6 +1089,38 @@ func runRemote(c *Ctx) {
 			c.Hit("server:" + s.Server)
 			c.Hit("answer:" + s.Answer)
 			c.Hit("via:" + s.Via)
+			if d.Chain {
+				c.Hit("chain:step")
+				c.Hit("chain:server2:" + s.Server2)
+				c.Hit("chain:answer2:" + s.Answer2)
+				c.Hit("chain:inc:" + []string{"none", "rel", "rel", "abs", "abs"}[s.Inc] + func() string {
+					if t := remIncTarget(s.c1()); t >= 0 && t == remCu(s.URL) {
+						return "-self"
+					}
+					return ""
+				}())
+				if j < len(steps) {
+					r := strings.SplitN(steps[j], " ", 2)[0]
+					both := strings.HasPrefix(r, "run:") && strings.Contains(r, "+")
+					spent := s.stalls() && !s.Patient && !s.NoExp
+					switch {
+					case both && spent:
+						c.Hit("chain:both-ran-after-node1-used-up-the-deadline")
+					case both && !s.Patient && s.stalls2():
+						c.Hit("chain:both-ran-node2-timed-out")
+					case both && s.Server2 != "serve" && !s.stalls2():
+						c.Hit("chain:both-ran-node2-fetch-failed")
+					case both && s.Offline:
+						c.Hit("chain:both-ran-offline")
+					case both:
+						c.Hit("chain:both-ran")
+					case spent && r == "err:108":
+						c.Hit("chain:deadline-108")
+					case r == "err:110":
+						c.Hit("chain:cycle-110")
+					}
+				}
+			}
 			if j < len(steps) {
 				r := strings.SplitN(steps[j], " ", 2)[0]
 				c.Hit("result:" + strings.SplitN(r, ":", 2)[0] + func() string {
